@@ -56,8 +56,10 @@ var (
 	profP5  = profile{name: "P5-truncated-E2-82", m: map[rune]rune{'c': 0xE000}, input: []rune{'a', 'b', 'c'}, enc: map[rune]string{0xE000: "\xe2\x82"}}
 	profP34 = profile{name: "P34-U+FFFD-pattern-letter+0xFF-input", m: map[rune]rune{'b': 0xFFFD, 'c': 0xE000}, input: []rune{'a', 'b', 'c'}, enc: map[rune]string{0xE000: "\xff"}}
 	// punctuation whose codes differ by 0x20 like the two cases of a letter ([ and {, @ and `): must never be taken for a case pair
-	profPP  = profile{name: "PP-punctuation-pairs [ { \"", m: map[rune]rune{'a': '[', 'b': '{', 'c': '"'}, input: []rune{'a', 'b', 'c'}}
-	profPQ  = profile{name: "PQ-punctuation-pairs @ ` ~", m: map[rune]rune{'a': '@', 'b': '`', 'c': '~'}, input: []rune{'a', 'b', 'c'}}
+	profPP = profile{name: "PP-punctuation-pairs [ { \"", m: map[rune]rune{'a': '[', 'b': '{', 'c': '"'}, input: []rune{'a', 'b', 'c'}}
+	profPQ = profile{name: "PQ-punctuation-pairs @ ` ~", m: map[rune]rune{'a': '@', 'b': '`', 'c': '~'}, input: []rune{'a', 'b', 'c'}}
+	// two astral letters and the last BMP code point: a complement set written for 16-bit characters loses everything above U+FFFF
+	profP7  = profile{name: "P7-astral-pair+U+FFFF", m: map[rune]rune{'a': 0x1D538, 'b': 0x20000, 'c': 0xFFFF}, input: []rune{'a', 'b', 'c'}}
 	profP45 = profile{name: "P45-é+0xFF", m: map[rune]rune{'a': 'é', 'c': 0xE000}, input: []rune{'a', 'b', 'c'}, enc: map[rune]string{0xE000: "\xff"}}
 	profGk  = profile{name: "P7-greek-mixedcase", m: map[rune]rune{'a': 'δ', 'B': 'Δ', 'b': 'ж'}, input: []rune{'a', 'B', 'b'}}
 )
